@@ -583,7 +583,8 @@ def suite_failing_buffer(ctx: Ctx) -> SuiteResult:
 def pending_case(case: dict) -> list[Violation]:
     """Samples waiting in the collector while the data user's state is loaded (a restore in place: the agent has
     collected, the hand-over has not happened yet): they are delivered by the next hand-over, after the loaded
-    content, once each. Monitor only - the model has no load operation (what is loaded is C05's business)."""
+    content, once each (theorem `load_keeps_pending`; what is loaded is C05's business). The run itself is checked by a
+    monitor: the real SequentialBuffer is not driven through the model here."""
     import tempfile
     from pamiq_core.data import DataUser
     from pamiq_core.data.impls import SequentialBuffer
@@ -620,8 +621,8 @@ def suite_pending_across_load(ctx: Ctx) -> SuiteResult:
     res = SuiteResult("queue-pending-across-load", exhaustive=True,
                       rule="capacity 1..4 x 0..3 samples delivered and saved x 0..3 samples collected afterwards and still "
                            "waiting in the collector when load_state() runs x flush by update()/get_data(): the waiting "
-                           "samples arrive after the loaded content, once each; monitor only (no load operation in the "
-                           "model); non-trivial = some sample waits")
+                           "samples arrive after the loaded content, once each (Pamiq.Queue.load_keeps_pending); checked by a "
+                           "monitor on the real DataUser + SequentialBuffer; non-trivial = some sample waits")
     for cap in (1, 2, 3, 4):
         for nf in range(4):
             for npend in range(4):
@@ -1050,7 +1051,7 @@ if __name__ == "__main__":
     try:
         code = run_check(
             "C07", lean_modules=["Pamiq.Props.C07", "Pamiq.Lemmas.Queue", "Pamiq.Lemmas.LockObj"],
-            required_theorems=[
+            required_theorems=["Pamiq.Queue.load_keeps_pending", 
                 "Pamiq.Queue.run_ok", "Pamiq.Queue.delivered_eq", "Pamiq.Queue.pending_eq",
                 "Pamiq.Queue.update_delivers", "Pamiq.Queue.ts_paired",
                 "Pamiq.Queue.windows_partition", "Pamiq.Queue.delivered_in_order",
